@@ -193,36 +193,48 @@ where
     where
         FIP: FnOnce() -> T,
     {
-        // We do not today make use of our right to create a "first" instance of `T` even when
-        // we do not need it. This is a potential future optimization if it proves valuable.
+        // TODO: We are repeatedly acquiring the family key here and in sibling functions.
+        // Perhaps a trivial cost but explore the value of eliminating the duplicate access.
+        let family_key = (self.family_key_provider)();
+
+        #[cfg(folo_verif)]
+        crate::verif::block_until("static.rcheck", &|| {
+            crate::verif::lock_is_free(GLOBAL_REGISTRY.try_read())
+        });
+
+        // The common case (any thread after the first one): the family is already registered.
+        if GLOBAL_REGISTRY
+            .read()
+            .expect(ERR_POISONED_LOCK)
+            .contains_key(&family_key)
+        {
+            return;
+        }
+
+        // The provider is arbitrary user code. In particular, it may itself access linked
+        // variables (even for the first time), so it must never be called with the registry
+        // lock held. We create the candidate first and only then look at the registry again -
+        // if another thread won the race, we make use of our right to throw our candidate away.
+        //
+        // TODO: We create an instance here, only to immediately transform it back to
+        // a family. Can we skip the middle step and just create a family directly?
+        #[cfg(folo_verif)]
+        crate::verif::point("static.init");
+
+        let first_instance = first_instance_provider();
+        let family = first_instance.family();
 
         #[cfg(folo_verif)]
         crate::verif::block_until("static.wlock", &|| {
             crate::verif::lock_is_free(GLOBAL_REGISTRY.try_write())
         });
 
+        // Declared after the candidate, so the lock is released before a losing candidate
+        // is dropped (dropping it is arbitrary user code, too).
         let mut global_registry = GLOBAL_REGISTRY.write().expect(ERR_POISONED_LOCK);
 
-        // TODO: We are repeatedly acquiring the family key here and in sibling functions.
-        // Perhaps a trivial cost but explore the value of eliminating the duplicate access.
-        let family_key = (self.family_key_provider)();
-        let entry = global_registry.entry(family_key);
-
-        match entry {
-            hash_map::Entry::Occupied(_) => (),
-            hash_map::Entry::Vacant(entry) => {
-                // TODO: We create an instance here, only to immediately transform it back to
-                // a family. Can we skip the middle step and just create a family directly?
-                #[cfg(folo_verif)]
-                crate::verif::point("static.init");
-
-                let first_instance = first_instance_provider();
-
-                #[cfg(folo_verif)]
-                crate::verif::point("static.insert");
-
-                entry.insert(Box::new(first_instance.family()));
-            }
+        if let hash_map::Entry::Vacant(entry) = global_registry.entry(family_key) {
+            entry.insert(Box::new(family));
         }
     }
 
